@@ -494,5 +494,698 @@ pub fn zoom_mode(bigbed: &mut Reader<BedEntry>, writer: &mut Out, chroms: Vec<Ch
                 values.all().len() - values.pos(),
 //@end
 
+
+// =====================================================================================
+// (c) multi-threaded writers write_bg / write_bed, SEQUENTIALISED (rule R1: `async`/`.await` stripped, every
+//     piece verified as running to completion; NO claim about schedules, blocking, wake-ups, panics of tasks)
+//     Four pieces per tool are carved out of the function text by whole-text //@presub (see NOTES.md):
+//       file_future   the task of ONE chromosome: one query (name, 0, length), one line per record into ITS writer
+//       produce       `remaining_chroms = chroms().to_vec(); reverse();` + the producer loop: pop, reopen, fresh
+//                     staging buffer, spawn the task, send the task handle, send the buffer
+//       join_tasks    the loop that awaits the task handles in send order and returns the first error
+//       hand_over     the main loop: take the next buffer, switch it to the output file, wait, take the file back
+// =====================================================================================
+/// TempFileBufferWriter<File> behind io::BufWriter: the producer half of one chromosome's staging buffer.  The
+/// task writes its lines into it (`Out` is used for the `&mut` view the task has of it).
+#[verifier::external_body] pub struct StageW { _p: u8 }
+impl StageW { pub uninterp spec fn cid(&self) -> int; }
+/// TempFileBuffer<File>, consumer half, per unit tfb (same reading as unit chrom_pipe):
+///   `staged()` = everything the producer half has accepted when its task finishes;
+///   switch          = tfb `switch/pre_invariant_and_switch_called_at_most_once`, `switch/destination_handed_over_untouched`
+///   await_real_file = tfb `await_real_file/pre_published_invariant_and_switched`,
+///                     `await_real_file/destination_holds_d0_then_all_written_bytes_once_in_order`
+///                     (the method waits for the producer itself: R13, blocking not modelled)
+///   is_real_file_ready = tfb `is_real_file_ready/true_iff_producer_has_published`
+/// `fuel()`: how many more times the waiting loop has to yield before the task has finished.  ASSUMED finite
+/// (fair scheduler, the task is not stuck): only the termination label of the busy-wait rests on it.
+#[verifier::external_body] pub struct StageBuf { _p: u8 }
+impl StageBuf {
+    pub uninterp spec fn cid(&self) -> int;
+    pub uninterp spec fn staged(&self) -> Seq<Piece>;
+    pub uninterp spec fn dest(&self) -> Option<Out>;
+    pub uninterp spec fn fuel(&self) -> nat;
+    #[verifier::external_body]
+    pub fn switch(&mut self, new_file: Out)
+        requires
+            [[L: tfb/switch_called_at_most_once]]
+            old(self).dest() is None,
+        ensures
+            final(self).dest() == Some(new_file), final(self).staged() == old(self).staged(), final(self).cid() == old(self).cid(),
+            final(self).fuel() == old(self).fuel(),
+    { unimplemented!() }
+    #[verifier::external_body]
+    pub fn is_real_file_ready(&self) -> (r: bool) ensures r == (self.fuel() == 0), { unimplemented!() }
+    #[verifier::external_body]
+    pub fn await_real_file(self) -> (d: Out)
+        requires
+            [[L: tfb/await_real_file_needs_a_switched_buffer]]
+            self.dest() is Some,
+        ensures
+            d.lines() == self.dest().unwrap().lines() + self.staged(),
+    { unimplemented!() }
+    // plausible foreign call: nothing promised
+    #[verifier::external_body] pub fn len(&self) -> usize { unimplemented!() }
+}
+/// `tokio::task::yield_now().await` inside `while !buf.is_real_file_ready()`: lets the task run
+#[verifier::external_body]
+pub fn yield_now(buf: &mut StageBuf)
+    ensures
+        final(buf).dest() == old(buf).dest(), final(buf).staged() == old(buf).staged(), final(buf).cid() == old(buf).cid(),
+        old(buf).fuel() > 0 ==> final(buf).fuel() == old(buf).fuel() - 1,
+        old(buf).fuel() == 0 ==> final(buf).fuel() == 0,
+{ unimplemented!() }
+pub struct TempFileBuffer {}
+impl TempFileBuffer {
+    /// `TempFileBuffer::new(inmemory)`: a fresh pair (tfb `fresh_pair`): nothing written, not switched
+    #[verifier::external_body]
+    pub fn new(inmemory: bool) -> (r: (StageBuf, StageW))
+        ensures r.0.cid() == r.1.cid(), r.0.dest() is None,
+    { unimplemented!() }
+}
+/// `io::BufWriter::new(file)` around the producer half (buffering not modelled)
+#[verifier::external_body]
+pub fn buffered(file: StageW) -> (w: StageW) ensures w.cid() == file.cid(), { unimplemented!() }
+/// tokio JoinHandle of one `file_future` task.  Ghost: what the task was started with and its result.
+#[verifier::external_body]
+#[verifier::accept_recursive_types(T)]
+pub struct Task<T> { _p: core::marker::PhantomData<T> }
+impl<T> Task<T> {
+    pub uninterp spec fn file(&self) -> FileId;
+    pub uninterp spec fn chrom(&self) -> ChromInfo;
+    pub uninterp spec fn cid(&self) -> int;
+    pub uninterp spec fn result(&self) -> Result<(), BBIReadError>;
+    /// `handle.await.unwrap()`: the task's result (a PANICKED task makes `.unwrap()` panic: not modelled)
+    #[verifier::external_body]
+    pub fn unwrap(self) -> (r: Result<(), BBIReadError>) ensures r == self.result(), { unimplemented!() }
+}
+/// `tokio::task::spawn(file_future(reader, chrom, writer))`
+#[verifier::external_body]
+pub fn spawn_file_future<T>(reader: Reader<T>, chrom: ChromInfo, writer: StageW) -> (h: Task<T>)
+    ensures h.file() == reader.file(), h.chrom() == chrom, h.cid() == writer.cid(),
+{ unimplemented!() }
+/// JoinHandle of the join_tasks loop
+#[verifier::external_body] pub struct DataHandle { _p: u8 }
+impl DataHandle {
+    pub uninterp spec fn result(&self) -> Result<(), BBIReadError>;
+    #[verifier::external_body]
+    pub fn unwrap(self) -> (r: Result<(), BBIReadError>) ensures r == self.result(), { unimplemented!() }
+}
+/// futures mpsc Sender<M>: ghost log of what was sent.  `send(..).await.unwrap()` PANICS when the receiver is gone
+/// (a panic returns nothing: `unwrap` below has no precondition)
+#[verifier::external_body]
+#[verifier::reject_recursive_types(M)]
+pub struct Tx<M> { _p: core::marker::PhantomData<M> }
+#[verifier::external_body] pub struct SendRes { _p: u8 }
+impl SendRes { #[verifier::external_body] pub fn unwrap(self) { unimplemented!() } }
+impl<M> Tx<M> {
+    pub uninterp spec fn sent(&self) -> Seq<M>;
+    #[verifier::external_body]
+    pub fn send(&mut self, m: M) -> (r: SendRes) ensures final(self).sent() == old(self).sent().push(m), { unimplemented!() }
+}
+/// futures mpsc Receiver<M>: ASSUMED a finite queue delivered in send order; None when closed and empty
+#[verifier::external_body]
+#[verifier::reject_recursive_types(M)]
+pub struct Mailbox<M> { _p: core::marker::PhantomData<M> }
+impl<M> Mailbox<M> {
+    pub uninterp spec fn queue(&self) -> Seq<M>;
+    #[verifier::external_body]
+    pub fn next(&mut self) -> (r: Option<M>)
+        ensures
+            old(self).queue().len() == 0 ==> r is None && final(self).queue() == old(self).queue(),
+            old(self).queue().len() > 0 ==> r == Some(old(self).queue()[0]) && final(self).queue() == old(self).queue().drop_first(),
+    { unimplemented!() }
+    #[verifier::external_body] pub fn try_next(&mut self) -> Option<M> { unimplemented!() }
+}
+/// `v.reverse()`
+#[verifier::external_body]
+pub fn vec_reverse<T>(v: &mut Vec<T>)
+    ensures final(v)@.len() == old(v)@.len(), forall|j: int| 0 <= j < old(v)@.len() ==> #[trigger] final(v)@[j] == old(v)@[old(v)@.len() - 1 - j],
+{ v.reverse() }
+
+/// concatenation of the buffers' staged text, in queue order
+pub open spec fn cat_staged(q: Seq<StageBuf>, n: int) -> Seq<Piece>
+    decreases n
+{ if n <= 0 { Seq::empty() } else { cat_staged(q, n - 1) + q[n - 1].staged() } }
+pub open spec fn tasks_ok<T>(q: Seq<Task<T>>, n: int) -> bool { forall|k: int| 0 <= k < n ==> (#[trigger] q[k]).result() is Ok }
+/// the k-th task / buffer pair the producer sends belongs to the k-th chromosome of the table (FILE ORDER)
+pub open spec fn pair_ok<T>(h: Task<T>, b: StageBuf, f: FileId, c: ChromInfo) -> bool {
+    h.file() == f && h.chrom() == c && h.cid() == b.cid() && b.dest() is None
+}
+
+/// "any thread count", sequential core: if every chromosome's staging buffer holds exactly the lines the
+/// single-threaded writer produces for that chromosome (which is what `file_future`'s contract says about the
+/// writer half it is given: one query (name, 0, length), one line per record), then the text the hand-over loop
+/// assembles (cat_staged, buffers in send order = file order) IS the single-threaded text.
+pub proof fn mt_text_is_st_text<T: Rec>(f: FileId, table: Seq<ChromInfo>, bufs: Seq<StageBuf>, n: int)
+    requires
+        0 <= n <= table.len(), bufs.len() == table.len(),
+        forall|k: int| 0 <= k < table.len() ==> (#[trigger] bufs[k]).staged() == chrom_text::<T>(f, table[k], None, None),
+    ensures
+        [[L: mt/same_per_chromosome_lines_in_file_order_give_the_single_threaded_text]]
+        cat_staged(bufs, n) == all_text::<T>(f, table, n, None, None),
+    decreases n,
+{
+    if n > 0 { mt_text_is_st_text::<T>(f, table, bufs, n - 1); }
+}
+
+// ---------------- bg: the task of one chromosome ----------------
+#[verifier::loop_isolation(false)]
+//@extract fn bigtools/src/utils/cli/bigwigtobedgraph.rs write_bg
+//@presub /\A.*?\n    (async fn file_future.*?\n    \})\n\n    let \(mut handle_snd.*\Z/ => \1 min=1 count=1
+//@rule R1
+//@sub /fn file_future<R: SeekableRead \+ 'static>/ => fn bg_file_future min=1
+//@sub /mut bigwig: \w+<R>/ => bigwig: &mut Reader<Value> min=1
+//@sub /mut writer: io::BufWriter<TempFileBufferWriter<File>>/ => writer: &mut Out min=1
+//@sub /\bString\b/ => Buf min=0
+//@sub /for (\w+) in ([^\n{]*?get_interval\([^\n]*?\)\?) \{/ => let mut values = \2; loop { let \1 = match values.next() { Some(x__) => x__, None => break }; min=0
+//@ret r
+//@sig
+    ensures
+        [[L: bg_mt/task/reader_serves_the_same_file]]
+        final(bigwig).file() == old(bigwig).file() && final(bigwig).table() == old(bigwig).table(),
+        [[L: bg_mt/task/one_range_query_whole_chromosome_name_0_length]]
+        final(bigwig).queries() == old(bigwig).queries().push(chrom_query(chrom, None, None)),
+        [[L: bg_mt/task/its_writer_gets_one_line_per_record_of_the_range_query_result_in_order]]
+        r is Ok ==> final(writer).lines() == old(writer).lines() + chrom_text::<Value>(old(bigwig).file(), chrom, None, None),
+        [[L: bg_mt/task/a_read_error_is_returned]]
+        r is Ok ==> chrom_clean::<Value>(old(bigwig).file(), chrom, None, None),
+//@open
+    let ghost f0 = bigwig.file();
+    let ghost l0 = writer.lines();
+//@loop 1
+        invariant
+            [[L: bg_mt/task/loop/frame]]
+            bigwig.file() == f0, bigwig.table() == old(bigwig).table(),
+            bigwig.queries() == old(bigwig).queries().push(chrom_query(chrom, None, None)),
+            values.pos() <= values.all().len(),
+            [[L: bg_mt/task/loop/records_are_the_range_query_result_for_name_0_length]]
+            chrom_answer::<Value>(f0, chrom, None, None) == Ok::<Seq<Result<Value, BBIReadError>>, BBIReadError>(values.all()),
+            [[L: bg_mt/task/loop/line_buffer_empty_at_each_record]]
+            buf.text() == Seq::<Piece>::empty(),
+            [[L: bg_mt/task/loop/lines_so_far]]
+            writer.lines() == l0 + lines_of(chrom.name, values.all(), values.pos() as int),
+            [[L: bg_mt/task/loop/items_ok_so_far]]
+            items_ok(values.all(), values.pos() as int),
+        decreases
+            [[L: bg_mt/task/loop/termination]]
+            values.all().len() - values.pos(),
+//@end
+
+// ---------------- bg: the producer ----------------
+#[verifier::loop_isolation(false)]
+//@extract fn bigtools/src/utils/cli/bigwigtobedgraph.rs write_bg
+//@presub /\A.*?\n(    let mut remaining_chroms = .*?)\n\s*async fn file_future.*?runtime\.spawn\(async move \{\n(        loop \{.*?\n        \})\n    \}\);\n\n    let data_handle.*\Z/ => fn bg_produce(bigwig: &Reader<Value>, inmemory: bool, handle_snd: &mut Tx<Task<Value>>, buf_snd: &mut Tx<StageBuf>) -> Result<(), BBIReadError> {\n\1\n\2\n} min=1 count=1
+//@rule R1
+//@sub /(\w+)\.reverse\(\);/ => vec_reverse(&mut \1); min=0
+//@sub /: \(TempFileBuffer<File>, TempFileBufferWriter<File>\)/ => : (StageBuf, StageW) min=0
+//@sub /io::BufWriter::new\(/ => buffered( min=0
+//@sub /tokio::task::spawn\(file_future\(([^()]*)\)\)/ => spawn_file_future(\1) min=1
+//@ret r
+//@sig
+    ensures
+        [[L: bg_mt/produce/one_task_and_one_buffer_per_chromosome]]
+        r is Ok ==> final(handle_snd).sent().len() == old(handle_snd).sent().len() + bigwig.table().len()
+            && final(buf_snd).sent().len() == old(buf_snd).sent().len() + bigwig.table().len(),
+        [[L: bg_mt/produce/kth_task_reads_the_kth_chromosome_of_the_same_file_into_the_kth_buffer_FILE_ORDER]]
+        r is Ok ==> forall|k: int| 0 <= k < bigwig.table().len() ==> pair_ok(
+            #[trigger] final(handle_snd).sent()[old(handle_snd).sent().len() + k], final(buf_snd).sent()[old(buf_snd).sent().len() + k],
+            bigwig.file(), bigwig.table()[k]),
+        [[L: bg_mt/produce/earlier_messages_untouched]]
+        old(handle_snd).sent() =~= final(handle_snd).sent().take(old(handle_snd).sent().len() as int)
+            && old(buf_snd).sent() =~= final(buf_snd).sent().take(old(buf_snd).sent().len() as int),
+//@open
+    let ghost tb = bigwig.table();
+    let ghost n = tb.len() as int;
+    let ghost h0 = handle_snd.sent();
+    let ghost b0 = buf_snd.sent();
+    let ghost mut k: int = 0;
+//@loop 1
+        invariant
+            [[L: bg_mt/produce/loop/remaining_is_the_rest_of_the_table_reversed]]
+            0 <= k <= n, remaining_chroms@.len() + k == n,
+            forall|j: int| 0 <= j < remaining_chroms@.len() ==> #[trigger] remaining_chroms@[j] == tb[n - 1 - j],
+            [[L: bg_mt/produce/loop/sent_so_far]]
+            handle_snd.sent().len() == h0.len() + k, buf_snd.sent().len() == b0.len() + k,
+            h0 =~= handle_snd.sent().take(h0.len() as int), b0 =~= buf_snd.sent().take(b0.len() as int),
+            forall|i: int| 0 <= i < k ==> pair_ok(#[trigger] handle_snd.sent()[h0.len() + i], buf_snd.sent()[b0.len() + i], bigwig.file(), tb[i]),
+        decreases
+            [[L: bg_mt/produce/loop/termination]]
+            remaining_chroms@.len(),
+//@loopend 1
+            proof { k = k + 1; }
+//@end
+
+// ---------------- bg: joining the tasks ----------------
+#[verifier::loop_isolation(false)]
+//@extract fn bigtools/src/utils/cli/bigwigtobedgraph.rs write_bg
+//@presub /\A.*?let data_handle = runtime\.spawn\(async move \{\n(        loop \{.*?\n        \})\n    \}\);\n    runtime\.block_on.*\Z/ => fn bg_join_tasks(handle_rcv: &mut Mailbox<Task<Value>>) -> Result<(), BBIReadError> {\n\1\n} min=1 count=1
+//@rule R1
+//@ret r
+//@sig
+    ensures
+        [[L: bg_mt/join/ok_iff_every_task_ok]]
+        r is Ok <==> tasks_ok(old(handle_rcv).queue(), old(handle_rcv).queue().len() as int),
+//@open
+    let ghost q = handle_rcv.queue();
+    let ghost mut k: int = 0;
+//@loop 1
+        invariant
+            [[L: bg_mt/join/loop/tasks_so_far_ok]]
+            0 <= k <= q.len(), handle_rcv.queue() =~= q.skip(k), tasks_ok(q, k),
+        decreases
+            [[L: bg_mt/join/loop/termination]]
+            handle_rcv.queue().len(),
+//@loopend 1
+            proof { k = k + 1; }
+//@end
+
+// ---------------- bg: the hand-over loop ----------------
+#[verifier::loop_isolation(false)]
+//@extract fn bigtools/src/utils/cli/bigwigtobedgraph.rs write_bg
+//@presub /\A.*runtime\.block_on\(async move \{\n(        loop \{.*?\n        \})\n    \}\)\?;\s*Ok\(\(\)\)\s*\}\s*\Z/ => fn bg_hand_over(buf_rcv: &mut Mailbox<StageBuf>, data_handle: DataHandle, mut out_file: Out) -> Result<Out, BBIReadError> {\n\1\n} min=1 count=1
+//@rule R1
+//@sub /return Ok::<_, BBIReadError>\(\(\)\);/ => return Ok::<_, BBIReadError>(out_file); min=1
+//@sub /tokio::task::yield_now\(\)/ => yield_now(&mut buf) min=0
+//@ret r
+//@sig
+    requires
+        [[L: bg_mt/handover/pre_every_buffer_is_fresh]]
+        forall|k: int| 0 <= k < old(buf_rcv).queue().len() ==> (#[trigger] old(buf_rcv).queue()[k]).dest() is None,
+    ensures
+        [[L: bg_mt/handover/output_is_every_buffers_text_in_send_order]]
+        r matches Ok(o) ==> o.lines() == out_file.lines() + cat_staged(old(buf_rcv).queue(), old(buf_rcv).queue().len() as int),
+        [[L: bg_mt/handover/error_of_the_tasks_is_returned_after_all_buffers]]
+        r is Ok <==> data_handle.result() is Ok,
+//@open
+    let ghost q = buf_rcv.queue();
+    let ghost l0 = out_file.lines();
+    let ghost mut k: int = 0;
+//@loop 1
+        invariant
+            [[L: bg_mt/handover/loop/text_so_far_in_send_order]]
+            0 <= k <= q.len(), buf_rcv.queue() =~= q.skip(k),
+            out_file.lines() == l0 + cat_staged(q, k),
+        decreases
+            [[L: bg_mt/handover/loop/termination]]
+            buf_rcv.queue().len(),
+//@loop 2
+            invariant
+                [[L: bg_mt/handover/wait/frame]]
+                0 <= k < q.len(), buf.staged() == q[k].staged(), buf.dest() matches Some(d) && d.lines() == l0 + cat_staged(q, k),
+                buf_rcv.queue() =~= q.skip(k + 1),
+            decreases
+                [[L: bg_mt/handover/wait/terminates_if_the_task_finishes_after_finitely_many_yields]]
+                buf.fuel(),
+//@loopend 1
+            proof { k = k + 1; }
+//@end
+
+// ---------------- bed: the task of one chromosome ----------------
+#[verifier::loop_isolation(false)]
+//@extract fn bigtools/src/utils/cli/bigbedtobed.rs write_bed
+//@presub /\A.*?\n    (async fn file_future.*?\n    \})\n\n    let \(mut handle_snd.*\Z/ => \1 min=1 count=1
+//@rule R1
+//@sub /fn file_future<R: SeekableRead \+ 'static>/ => fn bed_file_future min=1
+//@sub /mut bigbed: \w+<R>/ => bigbed: &mut Reader<BedEntry> min=1
+//@sub /mut writer: io::BufWriter<TempFileBufferWriter<File>>/ => writer: &mut Out min=1
+//@sub /\bString\b/ => Buf min=0
+//@sub /for (\w+) in ([^\n{]*?get_interval\([^\n]*?\)\?) \{/ => let mut values = \2; loop { let \1 = match values.next() { Some(x__) => x__, None => break }; min=0
+//@ret r
+//@sig
+    ensures
+        [[L: bed_mt/task/reader_serves_the_same_file]]
+        final(bigbed).file() == old(bigbed).file() && final(bigbed).table() == old(bigbed).table(),
+        [[L: bed_mt/task/one_range_query_whole_chromosome_name_0_length]]
+        final(bigbed).queries() == old(bigbed).queries().push(chrom_query(chrom, None, None)),
+        [[L: bed_mt/task/its_writer_gets_one_line_per_record_of_the_range_query_result_in_order]]
+        r is Ok ==> final(writer).lines() == old(writer).lines() + chrom_text::<BedEntry>(old(bigbed).file(), chrom, None, None),
+        [[L: bed_mt/task/a_read_error_is_returned]]
+        r is Ok ==> chrom_clean::<BedEntry>(old(bigbed).file(), chrom, None, None),
+//@open
+    let ghost f0 = bigbed.file();
+    let ghost l0 = writer.lines();
+//@loop 1
+        invariant
+            [[L: bed_mt/task/loop/frame]]
+            bigbed.file() == f0, bigbed.table() == old(bigbed).table(),
+            bigbed.queries() == old(bigbed).queries().push(chrom_query(chrom, None, None)),
+            values.pos() <= values.all().len(),
+            [[L: bed_mt/task/loop/records_are_the_range_query_result_for_name_0_length]]
+            chrom_answer::<BedEntry>(f0, chrom, None, None) == Ok::<Seq<Result<BedEntry, BBIReadError>>, BBIReadError>(values.all()),
+            [[L: bed_mt/task/loop/line_buffer_empty_at_each_record]]
+            buf.text() == Seq::<Piece>::empty(),
+            [[L: bed_mt/task/loop/lines_so_far]]
+            writer.lines() == l0 + lines_of(chrom.name, values.all(), values.pos() as int),
+            [[L: bed_mt/task/loop/items_ok_so_far]]
+            items_ok(values.all(), values.pos() as int),
+        decreases
+            [[L: bed_mt/task/loop/termination]]
+            values.all().len() - values.pos(),
+//@end
+
+// ---------------- bed: the producer ----------------
+#[verifier::loop_isolation(false)]
+//@extract fn bigtools/src/utils/cli/bigbedtobed.rs write_bed
+//@presub /\A.*?\n(    let mut remaining_chroms = .*?)\n\s*async fn file_future.*?runtime\.spawn\(async move \{\n(        loop \{.*?\n        \})\n    \}\);\n\n    let data_handle.*\Z/ => fn bed_produce(bigbed: &Reader<BedEntry>, inmemory: bool, handle_snd: &mut Tx<Task<BedEntry>>, buf_snd: &mut Tx<StageBuf>) -> Result<(), BBIReadError> {\n\1\n\2\n} min=1 count=1
+//@rule R1
+//@sub /(\w+)\.reverse\(\);/ => vec_reverse(&mut \1); min=0
+//@sub /: \(TempFileBuffer<File>, TempFileBufferWriter<File>\)/ => : (StageBuf, StageW) min=0
+//@sub /io::BufWriter::new\(/ => buffered( min=0
+//@sub /tokio::task::spawn\(file_future\(([^()]*)\)\)/ => spawn_file_future(\1) min=1
+//@ret r
+//@sig
+    ensures
+        [[L: bed_mt/produce/one_task_and_one_buffer_per_chromosome]]
+        r is Ok ==> final(handle_snd).sent().len() == old(handle_snd).sent().len() + bigbed.table().len()
+            && final(buf_snd).sent().len() == old(buf_snd).sent().len() + bigbed.table().len(),
+        [[L: bed_mt/produce/kth_task_reads_the_kth_chromosome_of_the_same_file_into_the_kth_buffer_FILE_ORDER]]
+        r is Ok ==> forall|k: int| 0 <= k < bigbed.table().len() ==> pair_ok(
+            #[trigger] final(handle_snd).sent()[old(handle_snd).sent().len() + k], final(buf_snd).sent()[old(buf_snd).sent().len() + k],
+            bigbed.file(), bigbed.table()[k]),
+        [[L: bed_mt/produce/earlier_messages_untouched]]
+        old(handle_snd).sent() =~= final(handle_snd).sent().take(old(handle_snd).sent().len() as int)
+            && old(buf_snd).sent() =~= final(buf_snd).sent().take(old(buf_snd).sent().len() as int),
+//@open
+    let ghost tb = bigbed.table();
+    let ghost n = tb.len() as int;
+    let ghost h0 = handle_snd.sent();
+    let ghost b0 = buf_snd.sent();
+    let ghost mut k: int = 0;
+//@loop 1
+        invariant
+            [[L: bed_mt/produce/loop/remaining_is_the_rest_of_the_table_reversed]]
+            0 <= k <= n, remaining_chroms@.len() + k == n,
+            forall|j: int| 0 <= j < remaining_chroms@.len() ==> #[trigger] remaining_chroms@[j] == tb[n - 1 - j],
+            [[L: bed_mt/produce/loop/sent_so_far]]
+            handle_snd.sent().len() == h0.len() + k, buf_snd.sent().len() == b0.len() + k,
+            h0 =~= handle_snd.sent().take(h0.len() as int), b0 =~= buf_snd.sent().take(b0.len() as int),
+            forall|i: int| 0 <= i < k ==> pair_ok(#[trigger] handle_snd.sent()[h0.len() + i], buf_snd.sent()[b0.len() + i], bigbed.file(), tb[i]),
+        decreases
+            [[L: bed_mt/produce/loop/termination]]
+            remaining_chroms@.len(),
+//@loopend 1
+            proof { k = k + 1; }
+//@end
+
+// ---------------- bed: joining the tasks ----------------
+#[verifier::loop_isolation(false)]
+//@extract fn bigtools/src/utils/cli/bigbedtobed.rs write_bed
+//@presub /\A.*?let data_handle = runtime\.spawn\(async move \{\n(        loop \{.*?\n        \})\n    \}\);\n    runtime\.block_on.*\Z/ => fn bed_join_tasks(handle_rcv: &mut Mailbox<Task<BedEntry>>) -> Result<(), BBIReadError> {\n\1\n} min=1 count=1
+//@rule R1
+//@ret r
+//@sig
+    ensures
+        [[L: bed_mt/join/ok_iff_every_task_ok]]
+        r is Ok <==> tasks_ok(old(handle_rcv).queue(), old(handle_rcv).queue().len() as int),
+//@open
+    let ghost q = handle_rcv.queue();
+    let ghost mut k: int = 0;
+//@loop 1
+        invariant
+            [[L: bed_mt/join/loop/tasks_so_far_ok]]
+            0 <= k <= q.len(), handle_rcv.queue() =~= q.skip(k), tasks_ok(q, k),
+        decreases
+            [[L: bed_mt/join/loop/termination]]
+            handle_rcv.queue().len(),
+//@loopend 1
+            proof { k = k + 1; }
+//@end
+
+// ---------------- bed: the hand-over loop ----------------
+#[verifier::loop_isolation(false)]
+//@extract fn bigtools/src/utils/cli/bigbedtobed.rs write_bed
+//@presub /\A.*runtime\.block_on\(async move \{\n(        loop \{.*?\n        \})\n    \}\)\?;\s*Ok\(\(\)\)\s*\}\s*\Z/ => fn bed_hand_over(buf_rcv: &mut Mailbox<StageBuf>, data_handle: DataHandle, mut out_file: Out) -> Result<Out, BBIReadError> {\n\1\n} min=1 count=1
+//@rule R1
+//@sub /return Ok::<_, BBIReadError>\(\(\)\);/ => return Ok::<_, BBIReadError>(out_file); min=1
+//@sub /tokio::task::yield_now\(\)/ => yield_now(&mut buf) min=0
+//@ret r
+//@sig
+    requires
+        [[L: bed_mt/handover/pre_every_buffer_is_fresh]]
+        forall|k: int| 0 <= k < old(buf_rcv).queue().len() ==> (#[trigger] old(buf_rcv).queue()[k]).dest() is None,
+    ensures
+        [[L: bed_mt/handover/output_is_every_buffers_text_in_send_order]]
+        r matches Ok(o) ==> o.lines() == out_file.lines() + cat_staged(old(buf_rcv).queue(), old(buf_rcv).queue().len() as int),
+        [[L: bed_mt/handover/error_of_the_tasks_is_returned_after_all_buffers]]
+        r is Ok <==> data_handle.result() is Ok,
+//@open
+    let ghost q = buf_rcv.queue();
+    let ghost l0 = out_file.lines();
+    let ghost mut k: int = 0;
+//@loop 1
+        invariant
+            [[L: bed_mt/handover/loop/text_so_far_in_send_order]]
+            0 <= k <= q.len(), buf_rcv.queue() =~= q.skip(k),
+            out_file.lines() == l0 + cat_staged(q, k),
+        decreases
+            [[L: bed_mt/handover/loop/termination]]
+            buf_rcv.queue().len(),
+//@loop 2
+            invariant
+                [[L: bed_mt/handover/wait/frame]]
+                0 <= k < q.len(), buf.staged() == q[k].staged(), buf.dest() matches Some(d) && d.lines() == l0 + cat_staged(q, k),
+                buf_rcv.queue() =~= q.skip(k + 1),
+            decreases
+                [[L: bed_mt/handover/wait/terminates_if_the_task_finishes_after_finitely_many_yields]]
+                buf.fuel(),
+//@loopend 1
+            proof { k = k + 1; }
+//@end
+
+// =====================================================================================
+// (b) overlap-bed mode: write_bg_from_bed / write_bed_from_bed.  DESCRIPTIVE (`doc/` labels): C16 only speaks of the
+//     -chrom/-start/-end restriction; this states what the code does with a region file.
+// =====================================================================================
+/// one line of the region (BED) file
+#[verifier::external_body] pub struct LineText { _p: u8 }
+/// the k-th field of `line.trim().splitn(5, '\t')` (k = 0, 1, 2: chrom, start, end) -- uninterpreted
+pub uninterp spec fn field(l: LineText, k: int) -> Name;
+/// the number `s.parse::<u32>()` yields -- uninterpreted
+pub uninterp spec fn num_of(s: Name) -> u32;
+/// `StreamingLineReader<BufReader<File>>` over the region file: a finite list of lines (or read errors)
+#[verifier::external_body] pub struct Regions { _p: u8 }
+impl Regions {
+    pub uninterp spec fn all(&self) -> Seq<Result<LineText, IoErr>>;
+    pub uninterp spec fn pos(&self) -> nat;
+    #[verifier::external_body]
+    pub fn read(&mut self) -> (r: Option<Result<LineText, IoErr>>)
+        ensures
+            final(self).all() == old(self).all(),
+            old(self).pos() < old(self).all().len() ==> r == Some(old(self).all()[old(self).pos() as int]) && final(self).pos() == old(self).pos() + 1,
+            old(self).pos() >= old(self).all().len() ==> r is None && final(self).pos() == old(self).pos(),
+    { unimplemented!() }
+}
+/// `line.trim().splitn(5, '\t')` and what the code does with it.  A missing field / a field that is not a u32
+/// makes `expect` / `unwrap` PANIC (no precondition here: a panic returns nothing) -- see NOTES "observations".
+#[verifier::external_body] pub struct Split { _p: u8 }
+#[verifier::external_body] pub struct OptField { _p: u8 }
+#[verifier::external_body] #[verifier::accept_recursive_types(T)] pub struct ParseRes<T> { _p: core::marker::PhantomData<T> }
+impl LineText {
+    #[verifier::external_body] pub fn trim(&self) -> (r: &LineText) ensures *r == *self, { unimplemented!() }
+    #[verifier::external_body] pub fn trim_end(&self) -> (r: &LineText) ensures *r == *self, { unimplemented!() }
+    #[verifier::external_body]
+    pub fn splitn(&self, n: usize, sep: char) -> (r: Split) ensures r.line() == *self, r.k() == 0, r.n() == n, r.sep() == sep, { unimplemented!() }
+    #[verifier::external_body] pub fn split(&self, sep: char) -> Split { unimplemented!() }
+    #[verifier::external_body] pub fn split_whitespace(&self) -> Split { unimplemented!() }
+}
+impl Split {
+    pub uninterp spec fn line(&self) -> LineText;
+    pub uninterp spec fn k(&self) -> int;
+    pub uninterp spec fn n(&self) -> int;
+    pub uninterp spec fn sep(&self) -> char;
+    #[verifier::external_body]
+    pub fn next(&mut self) -> (r: OptField)
+        ensures r.line() == old(self).line(), r.k() == old(self).k(), r.real() == (old(self).k() + 1 < old(self).n() && old(self).sep() == '\t'),
+            final(self).line() == old(self).line(), final(self).k() == old(self).k() + 1, final(self).n() == old(self).n(), final(self).sep() == old(self).sep(),
+    { unimplemented!() }
+}
+impl OptField {
+    pub uninterp spec fn line(&self) -> LineText;
+    pub uninterp spec fn k(&self) -> int;
+    /// a whole tab-separated field (not the unsplit remainder that `splitn` returns last)
+    pub uninterp spec fn real(&self) -> bool;
+    #[verifier::external_body]
+    pub fn expect(self, msg: &str) -> (r: &'static Name) ensures self.real() ==> *r == field(self.line(), self.k()), { unimplemented!() }
+    #[verifier::external_body]
+    pub fn unwrap(self) -> (r: &'static Name) ensures self.real() ==> *r == field(self.line(), self.k()), { unimplemented!() }
+}
+impl Name {
+    #[verifier::external_body] pub fn parse<T>(&self) -> (r: ParseRes<T>) ensures r.src() == *self, { unimplemented!() }
+}
+impl<T> ParseRes<T> { pub uninterp spec fn src(&self) -> Name; }
+impl ParseRes<u32> {
+    #[verifier::external_body] pub fn unwrap(self) -> (r: u32) ensures r == num_of(self.src()), { unimplemented!() }
+    #[verifier::external_body] pub fn unwrap_or(self, d: u32) -> u32 { unimplemented!() }
+}
+/// the region a line names and the ONE query made for it
+pub open spec fn region_query(l: LineText) -> Query { Query { name: field(l, 0), start: num_of(field(l, 1)), end: num_of(field(l, 2)) } }
+pub open spec fn region_answer<T>(f: FileId, l: LineText) -> Result<Seq<Result<T, BBIReadError>>, BBIReadError> {
+    answer::<T>(f, field(l, 0), num_of(field(l, 1)), num_of(field(l, 2)))
+}
+/// how a region's records are shown
+pub trait RegionRec: Sized {
+    spec fn shown(name: Name, x: Self, s: u32, e: u32) -> Piece;
+}
+/// bigWig: as is (the range query already clips values to the region: unit bw_values)
+impl RegionRec for Value {
+    // (`&&name`: the code passes a `&str` variable, the macro adds one more `&`; Verus keeps reference decorations
+    //  in the type argument of piece_spec, so the tuple type is spelled exactly as the code produces it)
+    open spec fn shown(name: Name, x: Value, s: u32, e: u32) -> Piece { piece_spec(fmt4(), (&&name, &x.start, &x.end, &ryu_text(x.value))) }
+}
+/// bigBed: start / end CLIPPED to the region (`val.start.max(start)`, `val.end.min(end)`), rest untouched
+pub open spec fn clip(x: BedEntry, s: u32, e: u32) -> BedEntry {
+    BedEntry { start: if x.start >= s { x.start } else { s }, end: if x.end <= e { x.end } else { e }, rest: x.rest }
+}
+impl RegionRec for BedEntry {
+    open spec fn shown(name: Name, x: BedEntry, s: u32, e: u32) -> Piece {
+        let c = clip(x, s, e);
+        if rest_empty(c.rest) { piece_spec(fmt3(), (&&name, &c.start, &c.end)) }
+        else { piece_spec(fmt4(), (&&name, &c.start, &c.end, &c.rest)) }
+    }
+}
+pub open spec fn region_lines<T: RegionRec>(l: LineText, items: Seq<Result<T, BBIReadError>>, n: int) -> Seq<Piece>
+    decreases n
+{
+    if n <= 0 { Seq::empty() } else { region_lines(l, items, n - 1).push(T::shown(field(l, 0), items[n - 1]->Ok_0, num_of(field(l, 1)), num_of(field(l, 2)))) }
+}
+pub open spec fn region_text<T: RegionRec>(f: FileId, l: LineText) -> Seq<Piece> {
+    region_lines(l, region_answer::<T>(f, l)->Ok_0, region_answer::<T>(f, l)->Ok_0.len() as int)
+}
+pub open spec fn region_clean<T>(f: FileId, l: Result<LineText, IoErr>) -> bool {
+    l matches Ok(t) && (region_answer::<T>(f, t) matches Ok(items) && items_ok(items, items.len() as int))
+}
+/// text / queries of the first n region lines, in region-file order (a region repeated or overlapping another one
+/// repeats its records: nothing is merged or de-duplicated)
+pub open spec fn regions_text<T: RegionRec>(f: FileId, ls: Seq<Result<LineText, IoErr>>, n: int) -> Seq<Piece>
+    decreases n
+{ if n <= 0 { Seq::empty() } else { regions_text::<T>(f, ls, n - 1) + region_text::<T>(f, ls[n - 1]->Ok_0) } }
+pub open spec fn regions_queries(ls: Seq<Result<LineText, IoErr>>, n: int) -> Seq<Query>
+    decreases n
+{ if n <= 0 { Seq::empty() } else { regions_queries(ls, n - 1).push(region_query(ls[n - 1]->Ok_0)) } }
+pub open spec fn regions_clean<T>(f: FileId, ls: Seq<Result<LineText, IoErr>>, n: int) -> bool {
+    forall|k: int| 0 <= k < n ==> region_clean::<T>(f, #[trigger] ls[k])
+}
+
+#[verifier::loop_isolation(false)]
+//@extract fn bigtools/src/utils/cli/bigwigtobedgraph.rs write_bg_from_bed
+//@sub /write_bg_from_bed<R: Reopen \+ SeekableRead \+ Send \+ 'static>/ => write_bg_from_bed min=1
+//@sub /mut bigbed: \w+<R>/ => bigbed: &mut Reader<Value> min=1
+//@sub /out_file: File/ => out_file: &mut Out min=1
+//@sub /bed: File/ => bed: Regions min=1
+//@sub /StreamingLineReader::new\(BufReader::new\((\w+)\)\)/ => \1 min=1
+//@sub /\bString\b/ => Buf min=0
+//@sub /while let Some\((\w+)\) = (\w+)\.read\(\) \{/ => loop { let \1 = match \2.read() { Some(x__) => x__, None => break }; min=1
+//@sub /\.parse::<u32>\(\)/ => .parse::<u32>() min=0
+//@sub /for (\w+) in ([^\n{]*?get_interval\([^\n]*?\)\?) \{/ => let mut values = \2; loop { let \1 = match values.next() { Some(x__) => x__, None => break }; min=0
+//@ret r
+//@sig
+    requires
+        bed.pos() == 0,
+    ensures
+        [[L: doc/bg_regions/one_range_query_per_region_line_in_region_file_order]]
+        r is Ok ==> final(bigbed).queries() == old(bigbed).queries() + regions_queries(bed.all(), bed.all().len() as int),
+        [[L: doc/bg_regions/output_is_each_regions_records_one_line_each_in_region_file_order_nothing_merged]]
+        r is Ok ==> final(out_file).lines() == old(out_file).lines() + regions_text::<Value>(old(bigbed).file(), bed.all(), bed.all().len() as int),
+        [[L: doc/bg_regions/any_read_error_including_a_region_on_an_unknown_chromosome_is_returned]]
+        r is Ok ==> regions_clean::<Value>(old(bigbed).file(), bed.all(), bed.all().len() as int),
+//@open
+    let ghost f0 = bigbed.file();
+    let ghost q0 = bigbed.queries();
+    let ghost l0 = out_file.lines();
+    let ghost ls = bed.all();
+//@loop 1
+        invariant
+            [[L: doc/bg_regions/loop/frame]]
+            bigbed.file() == f0, bedstream.all() == ls, bedstream.pos() <= ls.len(),
+            [[L: doc/bg_regions/loop/queries_so_far]]
+            bigbed.queries() == q0 + regions_queries(ls, bedstream.pos() as int),
+            [[L: doc/bg_regions/loop/text_so_far]]
+            writer.lines() == l0 + regions_text::<Value>(f0, ls, bedstream.pos() as int),
+            [[L: doc/bg_regions/loop/clean_so_far]]
+            regions_clean::<Value>(f0, ls, bedstream.pos() as int),
+            
+        decreases
+            [[L: doc/bg_regions/loop/termination]]
+            ls.len() - bedstream.pos(),
+//@loop 2
+            invariant
+                [[L: doc/bg_regions/inner/frame]]
+                bigbed.file() == f0, bedstream.all() == ls, 0 < bedstream.pos() <= ls.len(),
+                ls[bedstream.pos() - 1] == Ok::<LineText, IoErr>(line),
+                *chrom == field(line, 0), start == num_of(field(line, 1)), end == num_of(field(line, 2)),
+                values.pos() <= values.all().len(),
+                bigbed.queries() == q0 + regions_queries(ls, bedstream.pos() - 1).push(region_query(line)),
+                regions_clean::<Value>(f0, ls, bedstream.pos() - 1),
+                [[L: doc/bg_regions/inner/records_are_the_range_query_result_for_the_regions_chrom_start_end]]
+                region_answer::<Value>(f0, line) == Ok::<Seq<Result<Value, BBIReadError>>, BBIReadError>(values.all()),
+                [[L: doc/bg_regions/inner/lines_so_far]]
+                writer.lines() == l0 + regions_text::<Value>(f0, ls, bedstream.pos() - 1) + region_lines(line, values.all(), values.pos() as int),
+                items_ok(values.all(), values.pos() as int),
+                
+            decreases
+                [[L: doc/bg_regions/inner/termination]]
+                values.all().len() - values.pos(),
+//@end
+
+#[verifier::loop_isolation(false)]
+//@extract fn bigtools/src/utils/cli/bigbedtobed.rs write_bed_from_bed
+//@sub /write_bed_from_bed<R: Reopen \+ SeekableRead \+ Send \+ 'static>/ => write_bed_from_bed min=1
+//@sub /mut bigbed: \w+<R>/ => bigbed: &mut Reader<BedEntry> min=1
+//@sub /out_file: File/ => out_file: &mut Out min=1
+//@sub /bed: File/ => bed: Regions min=1
+//@sub /StreamingLineReader::new\(BufReader::new\((\w+)\)\)/ => \1 min=1
+//@sub /\bString\b/ => Buf min=0
+//@sub /while let Some\((\w+)\) = (\w+)\.read\(\) \{/ => loop { let \1 = match \2.read() { Some(x__) => x__, None => break }; min=1
+//@sub /\.parse::<u32>\(\)/ => .parse::<u32>() min=0
+//@sub /for (\w+) in ([^\n{]*?get_interval\([^\n]*?\)\?) \{/ => let mut values = \2; loop { let \1 = match values.next() { Some(x__) => x__, None => break }; min=0
+//@ret r
+//@sig
+    requires
+        bed.pos() == 0,
+    ensures
+        [[L: doc/bed_regions/one_range_query_per_region_line_in_region_file_order]]
+        r is Ok ==> final(bigbed).queries() == old(bigbed).queries() + regions_queries(bed.all(), bed.all().len() as int),
+        [[L: doc/bed_regions/output_is_each_regions_records_one_line_each_in_region_file_order_nothing_merged]]
+        r is Ok ==> final(out_file).lines() == old(out_file).lines() + regions_text::<BedEntry>(old(bigbed).file(), bed.all(), bed.all().len() as int),
+        [[L: doc/bed_regions/any_read_error_including_a_region_on_an_unknown_chromosome_is_returned]]
+        r is Ok ==> regions_clean::<BedEntry>(old(bigbed).file(), bed.all(), bed.all().len() as int),
+//@open
+    let ghost f0 = bigbed.file();
+    let ghost q0 = bigbed.queries();
+    let ghost l0 = out_file.lines();
+    let ghost ls = bed.all();
+//@loop 1
+        invariant
+            [[L: doc/bed_regions/loop/frame]]
+            bigbed.file() == f0, bedstream.all() == ls, bedstream.pos() <= ls.len(),
+            [[L: doc/bed_regions/loop/queries_so_far]]
+            bigbed.queries() == q0 + regions_queries(ls, bedstream.pos() as int),
+            [[L: doc/bed_regions/loop/text_so_far]]
+            writer.lines() == l0 + regions_text::<BedEntry>(f0, ls, bedstream.pos() as int),
+            [[L: doc/bed_regions/loop/clean_so_far]]
+            regions_clean::<BedEntry>(f0, ls, bedstream.pos() as int),
+            buf.text() == Seq::<Piece>::empty(),
+        decreases
+            [[L: doc/bed_regions/loop/termination]]
+            ls.len() - bedstream.pos(),
+//@loop 2
+            invariant
+                [[L: doc/bed_regions/inner/frame]]
+                bigbed.file() == f0, bedstream.all() == ls, 0 < bedstream.pos() <= ls.len(),
+                ls[bedstream.pos() - 1] == Ok::<LineText, IoErr>(line),
+                *chrom == field(line, 0), start == num_of(field(line, 1)), end == num_of(field(line, 2)),
+                values.pos() <= values.all().len(),
+                bigbed.queries() == q0 + regions_queries(ls, bedstream.pos() - 1).push(region_query(line)),
+                regions_clean::<BedEntry>(f0, ls, bedstream.pos() - 1),
+                [[L: doc/bed_regions/inner/records_are_the_range_query_result_for_the_regions_chrom_start_end]]
+                region_answer::<BedEntry>(f0, line) == Ok::<Seq<Result<BedEntry, BBIReadError>>, BBIReadError>(values.all()),
+                [[L: doc/bed_regions/inner/lines_so_far]]
+                writer.lines() == l0 + regions_text::<BedEntry>(f0, ls, bedstream.pos() - 1) + region_lines(line, values.all(), values.pos() as int),
+                items_ok(values.all(), values.pos() as int),
+                buf.text() == Seq::<Piece>::empty(),
+            decreases
+                [[L: doc/bed_regions/inner/termination]]
+                values.all().len() - values.pos(),
+//@end
 } // verus!
 fn main() {}
